@@ -44,7 +44,7 @@ TRANSITIONS = ['text>text', 'text>src', 'src>src', 'src>want', 'src>text', 'want
 
 def required_cells(tier):
     return (['shape:' + s for s in SHAPES] + ['want:' + w for w in WANTS] + ['trans:' + t for t in TRANSITIONS] +
-            ['indent:0', 'indent:2', 'indent:4', 'indent:8', 'dedent-prose', 'corpus:repo', 'tabs'] +
+            ['indent:0', 'indent:2', 'indent:4', 'indent:8', 'dedent-prose', 'corpus:repo', 'tabs', 'program-layout'] +
             (['corpus:stdlib'] if tier == 'thorough' else []))
 
 
@@ -241,6 +241,50 @@ def check_generated(ctx, index, seed):
                                                             'want_lines': p.want_lines} for p in parts]}, limit=2)
 
 
+def check_program_layout(ctx, index, seed):
+    """docstrings laid out by the C01 program generator (statement grammar x prompt styles x wants/prose/tabs/google)"""
+    from xdoctest import parser as xparser
+    from xv import gen_programs as gp
+    rng = random.Random(seed)
+    stmts = gp.ProgramGen(rng).program(1, 8)
+    ref = gp.run_reference(stmts)
+    layout = gp.Layout.random(rng)
+    doc, info = layout.render(stmts, ref.outs)
+    if 'mixed-continuation-then-want' in info['features']:
+        ctx.cell('skipped:known-C01-finding')
+        return
+    case = {'index': index, 'case_seed': seed, 'doc': doc, 'origin': 'program-layout'}
+    ctx.evaluation()
+    try:
+        parts = xparser.DoctestParser().parse(doc)
+    except Exception as ex:
+        ctx.violation('parse-raised', 'well formed docstring does not parse: %r (%r)\n--- docstring ---\n%s' % (
+            ex, getattr(ex, 'orig_ex', None), doc), case)
+        return
+    ctx.event('program_layouts_parsed')
+    probs = ridealong.partition_problems(doc, parts)
+    for mech, msg in probs:
+        ctx.violation('partition-' + mech, msg + '\n--- docstring ---\n' + doc, case)
+    if probs:
+        return
+    exp = ['text'] * info['head'] + [lab for lab, _ in info['labels']]
+    # blank separator lines and prose are text; drop trailing blanks like the parser's re-join does
+    lines = doc.split('\n')
+    while exp and lines and lines[len(exp) - 1].strip() == '' and exp[-1] == 'text':
+        exp.pop()
+    got = [lab for lab, _ in parser_labels(parts)]
+    if got != exp:
+        k = next((j for j, (a, b) in enumerate(zip(got, exp)) if a != b), min(len(got), len(exp)))
+        ctx.violation('label', 'line %d %r is %s by construction but the parser assigned it to %s\n--- docstring ---\n%s' % (
+            k, lines[k] if k < len(lines) else None, exp[k] if k < len(exp) else None, got[k] if k < len(got) else None, doc),
+            case, expected=exp, observed=got)
+        return
+    ctx.event('label_sequences_compared')
+    ctx.cell('program-layout')
+    if len(set(exp)) == 3:
+        ctx.nontrivial(doc)
+
+
 # ------------------------------------------------------------------ real corpora (contract (a) only)
 
 def iter_docstrings(paths):
@@ -300,6 +344,10 @@ def run_shard(ctx):
     n = ctx.pick(8000, 150000)
     for idx in ctx.my_indices(n):
         check_generated(ctx, idx, ctx.case_seed(idx))
+    # the C01 program generator's layouts: labels are known by construction there too
+    n2 = ctx.pick(2000, 30000)
+    for idx in ctx.my_indices(n2):
+        check_program_layout(ctx, idx, ctx.case_seed(10 ** 7 + idx))
     repo_files = py_files(os.path.join(os.environ.get('XV_REPO', '/repo'), 'src'))
     check_corpus(ctx, 'repo', repo_files[ctx.shard::ctx.nshards])
     if not ctx.quick():
@@ -308,6 +356,10 @@ def run_shard(ctx):
         files = std + site
         check_corpus(ctx, 'stdlib', files[ctx.shard::ctx.nshards])
     ridealong.drain(ctx, props=('C13',))
+    if ctx.shard == ctx.nshards - 1:
+        from xv import repo_ridealong
+        if repo_ridealong.run(ctx, ('C13',)):
+            ctx.cell('repo-tests-ridealong')
 
 
 def replay(case, ctx):
@@ -321,6 +373,8 @@ def replay(case, ctx):
             ctx.violation('partition-' + mech, msg, case)
     elif case.get('ridealong'):
         raise SystemExit('ride-along witnesses carry their docstring in details')
+    elif case.get('origin') == 'program-layout':
+        check_program_layout(ctx, case['index'], case['case_seed'])
     else:
         check_generated(ctx, case['index'], case['case_seed'])
 
